@@ -97,7 +97,9 @@ def judge(case, p, out):
     # mechanism marker for the open finding "filter penalty overflows": the solver's
     # penalty parameter is no longer finite when the solve ends
     rho_now = getattr(out.solver, "rho", None) if out.solver is not None else None
-    key["rho_overflow"] = bool(rho_now is not None and not np.isfinite(rho_now))
+    # (non-finite, or so large that rho * |c| and rho^2 overflow: >= 1e150, reached only through hundreds of
+    # accumulated tenfold increases)
+    key["rho_overflow"] = bool(rho_now is not None and (not np.isfinite(rho_now) or rho_now >= 1e150))
     if out.construct_exc is not None:
         return viol, "construct:" + type(out.construct_exc).__name__
     if out.result is not None:
